@@ -1,23 +1,23 @@
 #!/bin/bash
-# tools/seedtest.sh <seed-name> <property-id> <worktree> [tier]
+# tools/seedtest.sh <seed-name> <property-id> <worktree> [tier] [seed-dir holding demo.py/notes.md; default <worktree>/_seed]
 # 1. confirm in the scratch worktree: demo FAILS with the change, PASSES without, test suite still 254 passed
 # 2. store under /verif/seeded/<seed-name>/  3. apply to /repo, run the check, undo
-NAME=$1; PID=$2; WT=$3; TIER=${4:-quick}
+NAME=$1; PID=$2; WT=$3; TIER=${4:-quick}; SD=${5:-$3/_seed}
 set -u
 cd "$WT" || exit 2
 git diff -- src > /tmp/seed_$NAME.diff
 [ -s /tmp/seed_$NAME.diff ] || { echo "no source change in $WT"; exit 2; }
 run() { (cd "$WT" && PYTHONPATH="$WT/src" PYTHONWARNINGS=ignore /venv/bin/python "$@"); }
-run _seed/demo.py > /tmp/seed_$NAME.with.log 2>&1; RC_WITH=$?
+run "$SD/demo.py" > /tmp/seed_$NAME.with.log 2>&1; RC_WITH=$?
 git apply -R /tmp/seed_$NAME.diff      # (never git stash: refs/stash is shared by all worktrees)
-run _seed/demo.py > /tmp/seed_$NAME.without.log 2>&1; RC_WITHOUT=$?
+run "$SD/demo.py" > /tmp/seed_$NAME.without.log 2>&1; RC_WITHOUT=$?
 git apply /tmp/seed_$NAME.diff
 PYT=$(cd "$WT" && PYTHONPATH="$WT/src" /venv/bin/python -m pytest -q -p no:cacheprovider --timeout=900 --continue-on-collection-errors 2>&1 | tail -1)
 echo "demo with change rc=$RC_WITH (expect 1); without rc=$RC_WITHOUT (expect 0); pytest: $PYT"
 mkdir -p /verif/seeded/$NAME
 cp /tmp/seed_$NAME.diff /verif/seeded/$NAME/patch.diff
-cp "$WT/_seed/demo.py" /verif/seeded/$NAME/demo.py
-[ -f "$WT/_seed/notes.md" ] && cp "$WT/_seed/notes.md" /verif/seeded/$NAME/notes.md
+cp "$SD/demo.py" /verif/seeded/$NAME/demo.py
+[ -f "$SD/notes.md" ] && cp "$SD/notes.md" /verif/seeded/$NAME/notes.md
 # 3. run the check against the change in /repo
 cd /verif
 git -C /repo apply /verif/seeded/$NAME/patch.diff || { echo "patch does not apply to /repo"; exit 2; }
